@@ -39,6 +39,7 @@ let b01 b = if b then "1" else "0"
 let fmt_of = function
   | "32" -> (z_of_int 24, z_of_int 128, z_of_int 32, 8)
   | "64" -> (z_of_int 53, z_of_int 1024, z_of_int 64, 16)
+  | "80" -> (z_of_int 64, z_of_int 16384, z_of_int 79, 20)      (* x87 extended; see zin / zout *)
   | s -> failwith ("format " ^ s)
 let cstyle_of = function "w" -> C17_RelWeak | "s" -> C17_RelStrong | "a" -> C17_Absolute | s -> failwith ("cstyle " ^ s)
 let rstyle_of = function "z" -> C17_TowardZero | "i" -> C17_TowardInf | "d" -> C17_Downward | "u" -> C17_Upward | s -> failwith ("rstyle " ^ s)
@@ -49,6 +50,14 @@ let ity_of = function
   | "i16" -> { c17_signed = true; c17_width = z_of_int 16 } | "u16" -> { c17_signed = false; c17_width = z_of_int 16 }
   | s -> failwith ("ity " ^ s)
 
+(* long double travels as 20 hex digits = 16 bit sign/exponent + 64 bit significand with explicit integer bit; the model's
+   interchange layout (c17_of_bits, width 79) has the integer bit implicit: drop / re-insert it *)
+let p2 k = Z.pow (z_of_int 2) (z_of_int k)
+let zin hw x = if hw <> 20 then x else
+  let (se, mant) = Z.div_eucl x (p2 64) in let (_, frac) = Z.div_eucl mant (p2 63) in Z.add (Z.mul se (p2 63)) frac
+let zout hw z = if hw <> 20 then z else
+  let (se, frac) = Z.div_eucl z (p2 63) in let (_, ex) = Z.div_eucl se (p2 15) in
+  Z.add (Z.add (Z.mul se (p2 64)) (if ex = Z0 then Z0 else p2 63)) frac
 let is_fin p e v = is_finite p e v
 let verdict_str = function None -> "N" | Some true -> "T" | Some false -> "F"
 
@@ -66,8 +75,8 @@ let () =
       try
       match t.(0) with
       | "cmp" ->
-        let (p, e, w, _) = fmt_of t.(1) in let s = cstyle_of t.(2) in
-        let fb x = c17_of_bits p e w (z_of_hex x) in
+        let (p, e, w, hw) = fmt_of t.(1) in let s = cstyle_of t.(2) in
+        let fb x = c17_of_bits p e w (zin hw (z_of_hex x)) in
         let eps = fb t.(3) and a = fb t.(4) and b = fb t.(5) in
         let six = String.concat "" (List.map b01
           [c17_eq p e s eps a b; c17_ne p e s eps a b; c17_gt p e s eps a b; c17_lt p e s eps a b; c17_ge p e s eps a b; c17_le p e s eps a b]) in
@@ -95,8 +104,8 @@ let () =
             end) in
         six ^ " " ^ six ^ " " ^ six, orc
       | "vcmp" ->
-        let (p, e, w, _) = fmt_of t.(1) in let s = cstyle_of t.(2) in
-        let fb x = c17_of_bits p e w (z_of_hex x) in
+        let (p, e, w, hw) = fmt_of t.(1) in let s = cstyle_of t.(2) in
+        let fb x = c17_of_bits p e w (zin hw (z_of_hex x)) in
         let eps = fb t.(3) in
         let n = int_of_string t.(4) in
         let a = List.init n (fun i -> fb t.(5 + i)) in
@@ -128,8 +137,8 @@ let () =
         mo, orc
       | "round" | "trunc" ->
         let isround = t.(0) = "round" in
-        let (p, e, w, _) = fmt_of t.(1) in let ty = ity_of t.(2) in let s = cstyle_of t.(3) in let r = rstyle_of t.(4) in
-        let fb x = c17_of_bits p e w (z_of_hex x) in
+        let (p, e, w, hw) = fmt_of t.(1) in let ty = ity_of t.(2) in let s = cstyle_of t.(3) in let r = rstyle_of t.(4) in
+        let fb x = c17_of_bits p e w (zin hw (z_of_hex x)) in
         let eps = fb t.(5) and v = fb t.(6) in
         let res = if isround then c17_round_fix p e r ty s eps v else c17_trunc_fix p e r ty s eps v in
         let res0 = if isround then c17_round p e r ty s eps v else c17_trunc p e r ty s eps v in
@@ -179,14 +188,14 @@ let () =
         ires_str res, orc
       | "fpow" ->
         let (p, e, w, hw) = fmt_of t.(1) in
-        let m = c17_of_bits p e w (z_of_hex t.(2)) in
+        let m = c17_of_bits p e w (zin hw (z_of_hex t.(2))) in
         let pw = z_of_dec t.(3) in
         let r = c17_fpower p e m pw in
         let orc = (match il with
           | None -> "-"
           | Some l ->
             if not (is_fin p e m) then "ok" else
-            let ri = c17_of_bits p e w (z_of_hex l) in
+            let ri = c17_of_bits p e w (zin hw (z_of_hex l)) in
             let xm = c17_to_dy p e m in
             let n = abs (int_of_z pw) in
             if n > 40 then "ok(no-verdict)" else
@@ -204,16 +213,16 @@ let () =
               let okv = if Z.ltb pw Z0 then c17_dy_leb (c17_dy_abs (c17_dy_sub (c17_dy_mul rd ex) one)) relb
                         else c17_dy_leb (c17_dy_abs (c17_dy_sub rd ex)) (c17_dy_mul relb (c17_dy_abs ex)) in
               if okv then "ok" else "BAD power result differs from the exact power by more than (|p|+2) ulp/2") in
-        hex_of_z hw (c17_to_bits p e w r), orc
+        hex_of_z hw (zout hw (c17_to_bits p e w r)), orc
       | "defeps" ->
         let (p, e, w, hw) = fmt_of t.(1) in
-        let h st = hex_of_z hw (c17_to_bits p e w (c17_default_eps p e st)) in
+        let h st = hex_of_z hw (zout hw (c17_to_bits p e w (c17_default_eps p e st))) in
         let four st = String.concat " " [h st; h st; h st; h st] in
         let mo = four C17_RelWeak ^ " " ^ four C17_RelStrong ^ " " ^ four C17_Absolute ^ " " ^ h c17_default_cstyle in
         mo, (match il with None -> "-" | Some l -> if l = mo then "ok" else "BAD DefaultEpsilon is not 8 * machine epsilon (relative styles) / max(machine epsilon, 1e-6) (absolute) for every value type")
       | "cmpd" ->
-        let (p, e, w, _) = fmt_of t.(1) in
-        let fb x = c17_of_bits p e w (z_of_hex x) in
+        let (p, e, w, hw) = fmt_of t.(1) in
+        let fb x = c17_of_bits p e w (zin hw (z_of_hex x)) in
         let eps = fb t.(2) and a = fb t.(3) and b = fb t.(4) in
         let dc = c17_default_cstyle in
         let groups = [ (C17_RelWeak, c17_default_eps p e C17_RelWeak); (C17_RelStrong, c17_default_eps p e C17_RelStrong);
@@ -236,10 +245,10 @@ let () =
         mo, orc
       | "rto" ->
         let isround = t.(1) = "round" in
-        let (p, e, w, _) = fmt_of t.(2) in let ty = ity_of t.(3) in
+        let (p, e, w, hw) = fmt_of t.(2) in let ty = ity_of t.(3) in
         let s = (if t.(4) = "c" then cstyle_of t.(5) else c17_default_cstyle) in
         let r = (if t.(4) = "r" then rstyle_of t.(5) else c17_default_rstyle) in
-        let fb x = c17_of_bits p e w (z_of_hex x) in
+        let fb x = c17_of_bits p e w (zin hw (z_of_hex x)) in
         let eps = (if t.(6) = "-" then c17_default_eps p e s else fb t.(6)) and v = fb t.(7) in
         let res = if isround then c17_round_fix p e r ty s eps v else c17_trunc_fix p e r ty s eps v in
         let orc = (match il with
@@ -284,15 +293,15 @@ let () =
             if c17_spec_int_ok ty x obs then "ok" else "BAD exact value " ^ dec_of_z x ^ " is representable but the result is " ^ l) in
         ires_str res, orc
       | "fsign" ->
-        let (p, e, w, _) = fmt_of t.(1) in
-        let v = c17_of_bits p e w (z_of_hex t.(2)) in
+        let (p, e, w, hw) = fmt_of t.(1) in
+        let v = c17_of_bits p e w (zin hw (z_of_hex t.(2))) in
         let r = dec_of_z (c17_fsign p e v) in
         r, (match il with None -> "-" | Some l -> if l = r then "ok" else "BAD sign must be -1 for negative values and 1 otherwise")
       | "cls" ->
-        let (p, e, w, _) = fmt_of t.(1) in
+        let (p, e, w, hw) = fmt_of t.(1) in
         let kind = t.(2) in let n = int_of_string t.(3) in
         let n = if kind = "vc" then 2 * n else n in
-        let vs = List.init n (fun i -> c17_of_bits p e w (z_of_hex t.(4 + i))) in
+        let vs = List.init n (fun i -> c17_of_bits p e w (zin hw (z_of_hex t.(4 + i)))) in
         let r = (match kind with
           | "s" -> let v = List.hd vs in [c17_isnan p e v; c17_isinf p e v; c17_isfinite p e v]
           | "c" -> let re = List.nth vs 0 and im = List.nth vs 1 in [c17_cisnan p e re im; c17_cisinf p e re im; c17_cisfinite p e re im]
@@ -301,8 +310,8 @@ let () =
         String.concat "" (List.map b01 r),
         (match il with None -> "-" | Some l -> if l = spec then "ok" else "BAD classifiers must be any-NaN / any-inf / all-finite over the components: expected " ^ spec)
       | "unord" ->
-        let (p, e, w, _) = fmt_of t.(1) in
-        let a = c17_of_bits p e w (z_of_hex t.(2)) and b = c17_of_bits p e w (z_of_hex t.(3)) in
+        let (p, e, w, hw) = fmt_of t.(1) in
+        let a = c17_of_bits p e w (zin hw (z_of_hex t.(2))) and b = c17_of_bits p e w (zin hw (z_of_hex t.(3))) in
         let r = b01 (c17_isunordered p e a b) in
         let spec = b01 (is_nan p e a || is_nan p e b) in
         r ^ " " ^ r, (match il with None -> "-" | Some l -> if l = spec ^ " " ^ spec then "ok" else "BAD isUnordered must hold exactly when an argument is NaN")
